@@ -701,13 +701,14 @@ def buildCalls (api : List ProfileApi.Cls) (G : Table) (c : ProfileApi.Cls) : Ca
       | _ => .error .typeError
     seqF one (buildCalls api G c rest)
   | .kwBlock name b rest =>
-    match c.attrs.lookup name with
-    | some .enable => seqF (.ok (enableNode G name)) (buildCalls api G c rest)
-    | none =>
-      match buildBlock api G b with
-      | .error e => .error e
-      | .ok kids => seqF (.ok (.node (nameId G name) kids .nil)) (buildCalls api G c rest)
-    | _ => .error .typeError
+    -- the block object is an argument: it is constructed (and may raise) before `init_kwargs` looks at the keyword
+    match buildBlock api G b with
+    | .error e => .error e
+    | .ok kids =>
+      match c.attrs.lookup name with
+      | some .enable => seqF (.ok (enableNode G name)) (buildCalls api G c rest)
+      | none => seqF (.ok (.node (nameId G name) kids .nil)) (buildCalls api G c rest)
+      | _ => .error .typeError
   | .setOption name v rest => seqF (.ok (setOptionNode G c name v)) (buildCalls api G c rest)
   | .pair name ps rest => seqF (.ok (pairNodes G name ps)) (buildCalls api G c rest)
   | .enable name rest => seqF (.ok (enableNode G name)) (buildCalls api G c rest)
